@@ -1,0 +1,27 @@
+//go:build verif
+
+package control
+
+import "sync/atomic"
+
+// VerifYieldHook, when set, is called at named points between atomic steps of
+// racing code so that an external scheduler can order them. It is never
+// called with a mutex held.
+var VerifYieldHook atomic.Pointer[func(point string)]
+
+// VerifDomainRoutingObserver, when set, receives every (update keys, update
+// values, delete keys) batch that domainRoutingTracker.syncOwner is about to
+// apply to domain_routing_map. It runs under the tracker's own mutex.
+var VerifDomainRoutingObserver atomic.Pointer[func(upd [][4]uint32, vals []bpfDomainRouting, del [][4]uint32)]
+
+func verifYield(point string) {
+	if f := VerifYieldHook.Load(); f != nil {
+		(*f)(point)
+	}
+}
+
+func verifObserveDomainRoutingBatch(upd [][4]uint32, vals []bpfDomainRouting, del [][4]uint32) {
+	if f := VerifDomainRoutingObserver.Load(); f != nil {
+		(*f)(upd, vals, del)
+	}
+}
